@@ -13,7 +13,7 @@ PID = "C08"
 
 FIRSTS = ["connect-ok", "connect-bad-secret", "connect-object-none", "connect-object-empty", "connect-object-zero", "connect-object-list", "connect-ok-json", "connect-ok-marshal", "connect-ok-msgpack", "connect-daemon", "connect-unknown-object", "connect-unregistered-object", "connect-dead-weak-object", "connect-unknown-serializer", "connect-serializer-0",
           "connect-no-handshake-key", "connect-no-object-key", "connect-nondict", "connect-list", "connect-undecodable", "connect-empty-payload",
-          "type-connectok", "type-connectfail", "type-invoke", "type-invoke-oneway", "type-invoke-batch", "type-result", "type-ping", "type-0", "type-7", "type-255",
+          "type-connectok", "type-connectfail", "type-invoke", "type-invoke-cut-payload", "type-invoke-oneway", "type-invoke-batch", "type-result", "type-ping", "type-0", "type-7", "type-255",
           "bad-magic", "bad-version", "garbage16", "http-request", "truncated-header", "nothing"]
 VALIDATORS = ["accept", "return-none", "return-dict", "return-unserialisable", "raise-ValueError", "raise-SecurityError", "raise-PyroError", "raise-KeyError", "raise-Custom",
               "raise-ConnectionClosedError", "raise-empty-ValueError", "raise-bare-PermissionError", "raise-AssertionError", "raise-StopIteration"]
@@ -105,6 +105,8 @@ def make_run(cfg):
             "type-connectok": lambda: msg(protocol.MSG_CONNECTOK, 0, 1, 1, serp.dumps(ok)),
             "type-connectfail": lambda: msg(protocol.MSG_CONNECTFAIL, 0, 1, 1, serp.dumps("x")),
             "type-invoke": lambda: invoke_bytes("invoke", seq=1),
+            # a complete header of the wrong type whose announced payload never arrives in full (the verdict needs the header only)
+            "type-invoke-cut-payload": lambda: invoke_bytes("invoke", seq=1)[:-5],
             "type-invoke-oneway": lambda: invoke_bytes("oneway", seq=1),
             "type-invoke-batch": lambda: invoke_bytes("batch", seq=1),
             "type-result": lambda: msg(protocol.MSG_RESULT, 0, 1, 1, serp.dumps("r")),
